@@ -180,7 +180,7 @@ void scen_c04(mt_case * c) {
   myth_verif_clock_fn = vclock;
   mt_lib_start(c, &e, 0);
   mv_set_point_observer(observer); mv_set_spin_observer(spin_obs);
-  for (int m = 0; m < P.M; m++) Z0(myth_mutex_init(&mtx[m], 0));
+  for (int m = 0; m < P.M; m++) { MT_DIRTY(mtx[m]); Z0(myth_mutex_init(&mtx[m], 0)); }
   myth_thread_t th[16], oc[4];
   /* child first: an occupier takes over the creating worker; the creator and whatever else sits in that worker's
      run queue (threads that yielded there, possibly holding a mutex) can only go on by being stolen */
